@@ -9,6 +9,7 @@ import (
 // transfer executes one CFG node (not a branch condition) on one state.
 func (fm *c01Frame) transfer(n ast.Node, o c01Out) []c01Out {
 	fm.uses(n, &c01Ev{fm: fm, st: o.st, res: o.res})
+	fm.cellUses(n, &c01Ev{fm: fm, st: o.st, res: o.res})
 	outs := fm.execCalls(n, o)
 	var result []c01Out
 	for _, cur := range outs {
@@ -107,6 +108,7 @@ func (fm *c01Frame) rhsValues(ev *c01Ev, nl int, rhs []ast.Expr) ([]c01Val, []bo
 			vals[i] = ev.eval(r)
 			if call, ok := ast.Unparen(r).(*ast.CallExpr); ok && isMethod(callee(info, call), protoscanMsg, "Iterator") {
 				isIter[i] = true
+				vals[i] = c01Val{k: 'T', i: 'A'}
 			}
 		}
 		return vals, isIter
@@ -134,6 +136,7 @@ func (fm *c01Frame) rhsValues(ev *c01Ev, nl int, rhs []ast.Expr) ([]c01Val, []bo
 		if call, ok := ast.Unparen(rhs[0]).(*ast.CallExpr); ok {
 			if isMethod(callee(info, call), protoscanMsg, "Iterator") {
 				isIter[0] = true
+				vals[0] = c01Val{k: 'T', i: 'A'}
 			}
 			if rs, ok := ev.res[call]; ok {
 				for i := range vals {
@@ -168,9 +171,31 @@ func (fm *c01Frame) assign(ev *c01Ev, cur c01Out, lhs, rhs []ast.Expr, tok token
 				nv = 'N'
 			case v.k == 'F':
 				nv = cur.st.fields[v.i]
+			case v.k == 'T':
+				nv = byte(v.i)
 			}
 			for _, o := range outs {
 				o.st.fields[idx] = nv
+			}
+			continue
+		}
+		// a struct of tracked iterator fields assigned as a whole (`dec.cols = colsT{}`, `dec.cols = other`)
+		if tfs := fm.structFieldsTracked(l); len(tfs) > 0 && (tok == token.ASSIGN || tok == token.DEFINE) {
+			for _, tf := range tfs {
+				nv := byte('S')
+				if v.k == 'C' {
+					switch sub := c01Sub(v, "."+tf.Name()); sub.k {
+					case 'N':
+						nv = 'N'
+					case 'T':
+						nv = byte(sub.i)
+					case 'F':
+						nv = cur.st.fields[sub.i]
+					}
+				}
+				for _, o := range outs {
+					o.st.fields[fm.fr.fieldIdx[tf]] = nv
+				}
 			}
 			continue
 		}
@@ -300,6 +325,15 @@ func (fm *c01Frame) assign(ev *c01Ev, cur c01Out, lhs, rhs []ast.Expr, tok token
 		}
 		if v.k == 'I' {
 			v = c01Truncate(v, lt)
+		}
+		if v.k == 'F' {
+			// the value of a decoder field copied into a cell keeps the state the field has now
+			switch fs := cur.st.fields[v.i]; fs {
+			case 'N':
+				v = c01Val{k: 'N'}
+			default:
+				v = c01Val{k: 'T', i: int64(fs), s: "dec." + fm.fr.fields[v.i].Name()}
+			}
 		}
 		for _, o := range outs {
 			o.st.set(p, v)
